@@ -46,6 +46,7 @@ def dispatch (line : String) : String :=
     | "print" => BuiltinDrv.runPrint args
     | "scan" => ScanDrv.runScan args
     | "pcap" => PcapDrv.run args
+    | "pcaphdr" => PcapDrv.runHdr args
     | "fread" => FileDrv.runRead args
     | "fwrite" => FileDrv.runWrite args
     | "fwriten" => FileDrv.runWriteN args
